@@ -300,6 +300,14 @@ def agg_row(r, ncols=1):
     return canon_inv(r[0][0]) if ncols == 1 else [canon_inv(v) for v in r[0][:ncols]]
 
 
+class _P:
+    """an Amount seen as a cost-less position (for canon_inv)"""
+    cost = None
+
+    def __init__(self, amt):
+        self.units = amt
+
+
 def group_firstseen(keys):
     order = []
     for k in keys:
@@ -410,6 +418,10 @@ def prepare(case):
                 tgt = None
             else:
                 tgt = ['USD', 'EUR', 'HOOL', 'XYZ', 'ACME'][item[3] % 5]
+                # the currency argument as a user may spell it (3 in 8 not upper case): the overloads for positions, amounts and
+                # inventories must read one spelling alike; the model takes the argument literally
+                spelling = ['upper', 'upper', 'upper', 'lower', 'upper', 'capitalized', 'lower', 'upper'][item[4] % 8]
+                tgt = {'upper': tgt, 'lower': tgt.lower(), 'capitalized': tgt.capitalize()}[spelling]
                 q = sql(f"convert(sum(position), '{tgt}'{dlit}), sum(convert(position, '{tgt}'{dlit}))", sel)
                 allc = sorted(set(ledger_curs) | {tgt})
                 pt = price_table((allc, allc), date)
@@ -438,7 +450,25 @@ def prepare(case):
                         b = 'unconverted'
                 branches[b] = branches.get(b, 0) + 1
             add(kind, q, agg_row(r, 2), f'OL [o_inv ({e1}); o_inv ({e2})]',
-                ['invs', sc], sel=sel[0], nsel=len(sel_names(sel)), date=str(date), target=tgt, branches=branches)
+                ['invs', sc], sel=sel[0], nsel=len(sel_names(sel)), date=str(date), target=tgt, branches=branches,
+                **({} if kind == 'value' else {'spelling': spelling}))
+            # the same function on the running balance: f(balance) of a selected posting = the inventory sum of f(position)
+            # over the selected postings up to it (plain fold of the query's own first column with beancount's Inventory)
+            from beancount.core import inventory as binv
+            fargs = dlit if kind == 'value' else f", '{tgt}'{dlit}"
+            # convert() also has an overload for amounts: on a position held without cost it must agree with the position overload
+            extra_cols = '' if kind == 'value' else f', {kind}(units(position){fargs}), cost_number'
+            qb = sql(f'{kind}(position{fargs}), {kind}(balance{fargs}){extra_cols}', sel)
+            rb = execute(qb)
+            running, fold = binv.Inventory(), []
+            for row in rb:
+                if row[0] is not None:
+                    running.add_amount(row[0])
+                fold.append(canon_inv(running))
+            amounts = [[canon_inv([_P(row[0])]), canon_inv([_P(row[2])])] for row in rb if len(row) > 2 and row[3] is None]
+            add(kind + '-of-balance', qb, {'balance': [canon_inv(row[1]) for row in rb], 'fold': fold, 'amounts': amounts},
+                'OL []', ['fold'], sel=sel[0], nsel=len(rb), date=str(date), target=tgt,
+                **({} if kind == 'value' else {'spelling': spelling}))
         elif kind == 'group':
             gname, gexpr, gfun = [('account', 'account', lambda e, p: p.account),
                                   ('currency', 'currency', lambda e, p: p.units.currency),
@@ -806,6 +836,17 @@ def compare(check, mx, cur, lab):
                 if tot == 'no-row' or as_map(im[-1][i]) != as_map(tot):
                     probs.append(('last-balance-conservation',
                                   f'last balance {im[-1][i]} != sum(position) of the same selection {tot}'))
+    elif dec[0] == 'fold':
+        for i, (b, f) in enumerate(zip(im['balance'], im['fold'])):
+            if b is None or as_map(b) != as_map(f):
+                fn = check['kind'].split('-')[0]
+                probs.append((check['kind'], f'row {i}: {fn}(balance, ...) = {b} but the sum of {fn}(position, ...) over the selected '
+                                             f'postings up to it = {f}'))
+                break
+        for a, b in im['amounts']:
+            if a != b:
+                probs.append((check['kind'], f'a position held without cost: convert(position, ...) = {a} but convert(units(position), ...) = {b}'))
+                break
     elif dec[0] == 'invrows':
         m = [[decode_inv(x, sc, cur, lab) for x, sc in zip(r, dec[1])] for r in mx]
         if check['keys'] is not None and im['keys'] != check['keys']:
@@ -1093,6 +1134,12 @@ def run(tier, rng):
                             hist['key_deleted_events'] += 1
                 if chk['kind'] == 'convert':
                     hist['convert_targets'][chk['target']] = hist['convert_targets'].get(chk['target'], 0) + 1
+                if 'spelling' in chk:
+                    hs = hist.setdefault('convert_currency_spellings', {}).setdefault(chk['kind'], {})
+                    hs[chk['spelling']] = hs.get(chk['spelling'], 0) + 1
+                if chk['kind'].endswith('-of-balance'):
+                    hist['f_of_balance_rows'] = hist.get('f_of_balance_rows', 0) + len(chk['impl']['balance'])
+                    hist['amount_vs_position_overload_rows'] = hist.get('amount_vs_position_overload_rows', 0) + len(chk['impl']['amounts'])
                 if chk['kind'] in ('value', 'convert'):
                     dk = {'None': 'none', '2019-06-01': 'before-all', '2030-01-01': 'after-all'}.get(chk['date'], 'inside')
                     hist['date_kinds'][dk] = hist['date_kinds'].get(dk, 0) + 1
@@ -1156,7 +1203,10 @@ def run(tier, rng):
                 're-buys of an existing or deleted lot key, sales reducing lots (STRICT with full lot spec, FIFO/LIFO with {}), '
                 'FX with @ prices, zero postings, price directives in both directions) x 11 (quick) / 20 (thorough) queries drawn '
                 'from: sum(position); sum(price) (NULLs); f(sum(position)) and sum(f(position)) for units, cost, value[date], '
-                'convert to USD/EUR/HOOL/ACME/XYZ [date]; GROUP BY account/currency/year,month/cost_currency with total and '
+                'convert to USD/EUR/HOOL/ACME/XYZ [date] with the currency argument spelled in upper, lower or capitalized case; with '
+                'each of these value(balance[, date]) / convert(balance, c[, date]) per selected posting against the fold of '
+                'value(position) / convert(position, c) over the query\'s own rows, and convert(units(position), c) = '
+                'convert(position, c) on positions held without cost; GROUP BY account/currency/year,month/cost_currency with total and '
                 'sum over the group inventories via a FROM-subquery; SELECT balance with 1-3 references, units()/cost() of it, '
                 'subqueries scanning postings with balance between two references, the same as FROM-subquery, WHERE not '
                 'consulting balance (12 selections incl. FROM filters) and 8 WHERE shapes consulting it (short-circuit AND/OR/NOT); '
